@@ -577,6 +577,18 @@ fn job_c15_impl(out_dir: &str, tier: &str, seed: u64, only: Option<usize>, stack
         let cuts = { let k = rng.below(5); let mut c: Vec<usize> = (0..k).map(|_| rng.below(input.len() + 1)).collect(); c.sort_unstable(); c };
         emit(&mut sh, &cfg, &input, &cuts, &mut n, true);
     }
+    // (1a) a fixed list of selector strings around the edges of the supported grammar (every seed runs them)
+    for css in [":not(::x)", "a:not(::before)", ":not(a::b)", ":not(::x[y])", "a::before", "::x", "a:not()", ":not(:not(:not(a)))", ":is(a)", ":where(a)", ":has(a)",
+                "a:hover", "a:nth-child(2 of b)", "a:nth-last-child(1)", ":root", "a|b", "*|a", "|a", "a + b", "a ~ b", "a >", "> a", "a,,b", ",a", "a,", "[x", "[x=]", "[x='a' j]",
+                "[=a]", "#", ".", "a#", "a.", "a:", "a::", "\\", "a\\", "a\\\n", "\u{0}", "a\u{0}", "-", "--", "-1", "1a", "#1", ".1", "a:nth-child(n+)", "a:nth-child(+ n)", "a:nth-child(2n + -1)",
+                "a:nth-child(even of)", "a:nth-of-type()", ":not(", "a)", "a(", "a[b](c)", "a /* c */ b", "a/**/", "/**/", "@media", "a{b}", "a!important", "a;b", "<a>", "a > > b",
+                "a:not(b, c)", "a:not(b c)", "a:not(b > c)", "a:not(*|b)", "A:NOT(B)", "a:NTH-CHILD(2N+1)", "[x=\"a\nb\"]", "[x='\\'']", "[x|=a]", "[x|='']", "[x~=' ']", "[x i]", "[x=a I]", "[x=a s]",
+                "e\u{301}", "\u{1F600}", ".\u{1F600}", "#\u{e9}", "[\u{e9}=\u{e9}]", "a:not(\u{e9})", "\u{3000}a", "a\u{a0}"] {
+        let cfg = json!({"strict": false, "enc": "utf-8", "elem": [{"sel": css, "element": [{"op":"set_attr","a":["x","y"]}], "text": [], "comments": []}]});
+        let input: &[u8] = b"<ul><li>a</li><li class=c>b<!--c--></li></ul><a href=x><b></b></a>";
+        emit(&mut sh, &cfg, input, &[7], &mut n, true);
+        emit(&mut sh, &gen::merge(&cfg, &json!({"enc": "shift_jis"})), input, &[], &mut n, true);
+    }
     // (1b) selector strings and API argument strings: grammar-based, mutated and extreme values
     let nsel = if quick { 4000 } else { 120000 };
     let extreme = ["2147483647", "-2147483648", "2147483648", "-2147483647", "99999999999999999999", "-0", "+0", "1e9", "0x10", ""];
